@@ -167,3 +167,31 @@ Proof.
   apply (listed_nonempty s r (housed_desc_spec sizes rooms H) (rank c)); [rewrite len_s; exact Hr|unfold Sz; rewrite Esz; exact Hp|exact E].
 Qed.
 End Course.
+
+(* ---- io::rooms::read ---- *)
+Lemma insert_kind_perm x : forall l, Permutation (insert_kind x l) (x :: l).
+Proof.
+  induction l as [|y t IH]; simpl; [apply Permutation_refl|]. destruct (kind_cap x <? kind_cap y); [apply Permutation_refl|].
+  apply perm_trans with (y :: x :: t); [apply perm_skip; exact IH|apply perm_swap].
+Qed.
+Theorem kinds_read_perm raw : Permutation (kinds_read raw) raw.
+Proof.
+  unfold kinds_read. apply perm_trans with (fold_left (fun acc x => insert_kind x acc) raw []); [apply Permutation_sym, Permutation_rev|].
+  assert (G : forall l acc, Permutation (fold_left (fun acc x => insert_kind x acc) l acc) (l ++ acc)).
+  { induction l as [|x t IH]; intros acc; simpl; [apply Permutation_refl|].
+    apply perm_trans with (t ++ insert_kind x acc); [apply IH|]. apply perm_trans with (t ++ x :: acc); [apply Permutation_app_head, insert_kind_perm|].
+    apply Permutation_sym, Permutation_middle. }
+  rewrite <- (app_nil_r raw) at 2. apply G.
+Qed.
+(* the room list the solver gets contains, for every kind of the file, exactly `quantity` rooms of its capacity *)
+Theorem rooms_read_perm raw : Permutation (rooms_of_kinds (kinds_read raw)) (rooms_of_kinds raw).
+Proof.
+  unfold rooms_of_kinds. assert (G : forall l l' : list kind, Permutation l l' ->
+    Permutation (flat_map (fun k : kind => let '(_, cap, q) := k in repeat cap q) l) (flat_map (fun k : kind => let '(_, cap, q) := k in repeat cap q) l')).
+  { induction 1; simpl.
+    - apply perm_nil.
+    - apply Permutation_app_head. assumption.
+    - rewrite !app_assoc. apply Permutation_app_tail. apply Permutation_app_comm.
+    - eapply perm_trans; eassumption. }
+  apply G, kinds_read_perm.
+Qed.
